@@ -221,11 +221,19 @@ from xdsl.ir import Operation  # noqa: E402
 class TreeOp(Operation):
     """view of an arbitrary op: attribute dict, class tag (is it a call), children"""
 
-    def __init__(self, attrs, children):
+    def __init__(self, attrs, children, layout="one_block"):
         self._init_op([], [], [])
         self.attributes = attrs
-        blk = Block(children)
-        self.regions = [Region([blk])] if len(children) > 0 else []
+        if len(children) == 0:
+            self.regions = []
+        elif layout == "regions":
+            # one region per child (scf.if: then / else; scf.while: before / after)
+            self.regions = [Region([Block([c])]) for c in children]
+        elif layout == "blocks":
+            # one region, one block per child (unstructured control flow inside the op)
+            self.regions = [Region([Block([c]) for c in children])]
+        else:
+            self.regions = [Region([Block(children)])]
 
 
 from xdsl.dialects import func as _func  # noqa: E402
@@ -252,7 +260,8 @@ class has_accfg_effects_contract:
     """an op has effects iff its explicit attribute says so, else iff it is a call, else iff some nested op has
     (recursive calls through the function's own contract: arbitrary answers for the children)"""
     target = "snaxc.inference.helpers.has_accfg_effects"
-    shapes = [dict(attr=a, call=c, nchildren=n) for a in ("none_attr", "effects_none", "effects_all", "other_attr") for c in ("no", "func", "llvm") for n in (0, 1, 2)]
+    shapes = ([dict(attr=a, call=c, nchildren=n) for a in ("none_attr", "effects_none", "effects_all", "other_attr") for c in ("no", "func", "llvm") for n in (0, 1, 2)]
+              + [dict(attr=a, call="no", nchildren=n, layout=l) for a in ("none_attr", "other_attr") for n in (2, 3) for l in ("regions", "blocks")])
     native = False
     total = True
     modular = {"snaxc.inference.helpers.has_accfg_effects": effects_rec}
@@ -274,7 +283,7 @@ class has_accfg_effects_contract:
         elif sh["attr"] == "other_attr":
             attrs["accfg.effects"] = mk_ident_value(7)
         cls = dict(no=TreeOp, func=FuncCallView, llvm=LlvmCallView)[sh["call"]]
-        op = cls(attrs, children)
+        op = cls(attrs, children, sh.get("layout", "one_block"))
         G["case"] = dict(children=[r for _, r in G["fx"]])
         return [op]
 
@@ -287,7 +296,7 @@ class has_accfg_effects_contract:
         elif sh["call"] != "no":
             check("an unannotated call has effects", ret == True)  # noqa: E712
         else:
-            check("otherwise: effects iff some nested op has effects", ret == any(kids))
+            check("otherwise: effects iff some nested op has effects - in ANY region and ANY block of the op", ret == any(kids))
 
     def canary(sh, a, ret):
         check("canary: nothing has effects", ret == False)  # noqa: E712
@@ -503,14 +512,23 @@ def build_loop(sym, sh):
         setups.append((s, names, vals))
         ops.append(s)
     nested_ops = []
+    in_for = sh["nested"] > 0 and sh.get("nest", "if") == "for"
+    iblk = Block(arg_types=[IndexType(), accfg.StateType("acc")]) if in_for else None
     for k in range(sh["nested"]):
         names = [sym_name(sym, 100 + 10 * k + j) for j in range(sh["nparams"])]
         vals = [mk_loop_value(sym, f"n{k}_{j}") for j in range(sh["nparams"])]
-        s = accfg.SetupOp(vals, names, "acc", prev_state)
+        s = accfg.SetupOp(vals, names, "acc", iblk.args[1] if in_for else prev_state)
         setups.append((s, names, vals))
         nested_ops.append(s)
     other = accfg.SetupOp([mk_loop_value(sym, "o0")], ["A"], "other_acc", None)
-    if sh["nested"] > 0:
+    if in_for:
+        # the nested setups sit in an inner scf.for that carries the accelerator state itself (what trace-states builds for a loop nest)
+        for o in nested_ops + [scf.YieldOp(nested_ops[-1].out_state)]:
+            iblk.add_op(o)
+        inner = scf.ForOp(mk_ident_value(91), mk_ident_value(92), mk_ident_value(93), [prev_state], Region([iblk]))
+        ops.append(inner)
+        prev_state = inner.results[0]
+    elif sh["nested"] > 0:
         ops.append(scf.IfOp(mk_ident_value(96), [], Region([Block(nested_ops + [scf.YieldOp()])]), Region([Block([scf.YieldOp()])])))
     ops.append(other)
     ops.append(scf.YieldOp(prev_state))
@@ -521,6 +539,7 @@ def build_loop(sym, sh):
 
 
 LOOP_SHAPES = [dict(top=t, nested=n, nparams=p) for t in (1, 2) for n in (0, 1) for p in (1, 2) if not (t == 2 and n == 1 and p == 2)]
+LOOP_SHAPES += [dict(top=1, nested=1, nparams=p, nest="for") for p in (1, 2)]
 
 
 def consistent_values(setups):
